@@ -281,15 +281,11 @@ func (fx *FnExec) applyContract(st *State, fn *ssa.Function, con *Contract, args
 	for i, r := range con.Common.Requires {
 		fx.oblig(st, "call-pre", fmt.Sprintf("%s.%d", fn.Name(), i), p, envPre.boolExpr(r.Expr))
 	}
-	// frame: havoc assigns
-	fx.havocAssigns(st, envPre, con.Common.Assigns, fn)
 	// allocation may advance
-	if !con.Common.HasAssigns || true {
-		oldA := fx.heapGet(st, "alloc", SInt)
-		newA := fx.c.Fresh("alloc", SInt)
-		st.heap["alloc"] = newA
-		fx.c.Assume(Implies(st.guard, Ge(newA, oldA)))
-	}
+	oldA := fx.heapGet(st, "alloc", SInt)
+	newA := fx.c.Fresh("alloc", SInt)
+	st.heap["alloc"] = newA
+	fx.c.Assume(Implies(st.guard, Ge(newA, oldA)))
 	var res []*Term
 	sig := fn.Signature
 	for i := 0; i < sig.Results().Len(); i++ {
@@ -298,6 +294,9 @@ func (fx *FnExec) applyContract(st *State, fn *ssa.Function, con *Contract, args
 		fx.assumeType(st, v, rt)
 		res = append(res, v)
 	}
+	// frame: havoc assigns (which may name the results, e.g. ghost state of a fresh object)
+	envAssign := fx.contractEnv(fn, con, args, pre, pre, res)
+	fx.havocAssigns(st, envAssign, con.Common.Assigns, fn)
 	envPost := fx.contractEnv(fn, con, args, pre, st, res)
 	for _, en := range con.Common.Ensures {
 		fx.c.Assume(Implies(st.guard, envPost.boolExpr(en.Expr)))
@@ -325,6 +324,9 @@ func (fx *FnExec) havocAssigns(st *State, envPre *SpecEnv, assigns []*Clause, fn
 		case loc.whole != "" && loc.si != nil:
 			s := ArrSort(SInt, fx.fieldSort(loc.si, loc.fidx))
 			st.heap[loc.whole] = fx.c.Fresh("hv_"+loc.whole, s)
+		case loc.whole != "" && loc.refKind == "ghost":
+			old := fx.heapGet(st, loc.whole, loc.gsort)
+			fx.heapSet(st, loc.whole, Store(old, loc.ref, fx.c.Fresh("hvg", loc.gsort.elemSort())))
 		case loc.whole != "":
 			// ghost component
 			st.heap[loc.whole] = fx.c.Fresh("hv_"+loc.whole, loc.gsort)
@@ -558,12 +560,15 @@ func (fx *FnExec) doConvert(st *State, x *ssa.Convert) {
 			return
 		}
 		bits := int64(typeBits(to))
+		var wrapped *Term
 		if isUnsigned(to) {
-			fx.vals[x] = Mod(v, pow2(bits))
+			wrapped = Mod(v, pow2(bits))
 		} else {
 			m := Mod(Add(v, pow2(bits-1)), pow2(bits))
-			fx.vals[x] = Sub(m, pow2(bits-1))
+			wrapped = Sub(m, pow2(bits-1))
 		}
+		// values already in range are unchanged (keeps the common case linear)
+		fx.vals[x] = Ite(And(Le(tlo, v), Le(v, thi)), v, wrapped)
 	case isStringT(to):
 		if sl, ok := fu.(*types.Slice); ok {
 			if b, ok := sl.Elem().Underlying().(*types.Basic); ok && b.Kind() == types.Uint8 {
